@@ -54,13 +54,21 @@ def run_family(family):
             for L in sorted({c["L"] for c in cfgs}):
                 cfgs.append({"lens": [1] * 12, "U": 32, "L": L, "faultfree": "y"})
                 cfgs.append({"lens": [2, 1, 2, 1, 2, 1, 2, 7, 1], "U": 32, "L": L, "faultfree": "y"})
+            for L in sorted({c["L"] for c in cfgs}):
+                # well-formed JSON that is no envelope in the middle of the stream: rejected, then business as usual
+                for lens in ([2, 2], [3, 1], [1, 2, 2], [2, 1, 2]):
+                    for pos in range(1, len(lens) + 1):
+                        for jl in (1, 2):
+                            cfgs.append({"lens": lens, "U": 32, "L": L, "faultfree": "y", "junk": pos, "junklen": jl})
             for cf in cfgs:
-                key = (tuple(cf["lens"]), cf["L"])
+                key = (tuple(cf["lens"]), cf["L"], cf.get("junk", 0), cf.get("junklen", 0))
                 if key in seen:
                     continue
                 seen.add(key)
                 for mode in ("loop-accept", "loop-dial"):
-                    extra.append({"mode": mode, "cfg": dict(cf, faultfree="y"), "plan": {"w": [], "r": [], "cut": 0}, "obs": []})
+                    for trace in ("n", "y"):   # with and without a TraceWriter installed
+                        extra.append({"mode": mode, "cfg": dict(cf, faultfree="y", trace=trace),
+                                      "plan": {"w": [], "r": [], "cut": 0}, "obs": []})
             for c in extra:
                 c["n"] = len(cases) + 1
                 cases.append(c)
